@@ -1032,6 +1032,210 @@ fn kind_union() -> usize {
     bad
 }
 
+/// C19 stand-in: type-level get / insert / remove against the value-level operations, judged by the
+/// independent membership predicate `member`.
+fn kind_crud(only_negative_insert_before_start: bool) -> usize {
+    let unit = if only_negative_insert_before_start { "kind_crud_neg_insert" } else { "kind_crud" };
+    use vrl::value::kind::Collection;
+    use vrl::value::Kind;
+    use vrl::path::parse_value_path;
+    let f = |pairs: Vec<(&str, Kind)>| -> BTreeMap<vrl::value::kind::Field, Kind> { pairs.into_iter().map(|(k, v)| (k.into(), v)).collect() };
+    let arr = |items: Vec<Kind>| -> Kind { Kind::array(items.into_iter().enumerate().map(|(i, k)| (i.into(), k)).collect::<BTreeMap<vrl::value::kind::Index, Kind>>()) };
+    let kinds: Vec<(&str, Kind)> = vec![
+        ("{}", Kind::object(Collection::empty())),
+        ("{a: integer}", Kind::object(f(vec![("a", Kind::integer())]))),
+        ("{a: integer, b: string}", Kind::object(f(vec![("a", Kind::integer()), ("b", Kind::bytes())]))),
+        ("object", Kind::object(Collection::any())),
+        ("{o: {a: string}}", Kind::object(f(vec![("o", Kind::object(f(vec![("a", Kind::bytes())])))]))),
+        ("{a: [integer]}", Kind::object(f(vec![("a", arr(vec![Kind::integer()]))]))),
+        ("[]", Kind::array(Collection::empty())),
+        ("[integer]", arr(vec![Kind::integer()])),
+        ("[integer, string]", arr(vec![Kind::integer(), Kind::bytes()])),
+        ("[*: integer]", Kind::array(Collection::from_unknown(Kind::integer()))),
+        ("array", Kind::array(Collection::any())),
+        ("{a: integer}|null", Kind::object(f(vec![("a", Kind::integer())])).or_null()),
+        ("{*: integer}", Kind::object(Collection::from_unknown(Kind::integer()))),
+        ("integer", Kind::integer()),
+        ("[integer]|null", arr(vec![Kind::integer()]).or_null()),
+    ];
+    let ev = |json: &str| -> Value { serde_json::from_str::<serde_json::Value>(json).map(Value::from).unwrap() };
+    let values: Vec<Value> = ["{}", "{\"a\": 1}", "{\"a\": 1, \"b\": \"s\"}", "{\"o\": {\"a\": \"x\"}}", "{\"a\": [1]}", "{\"x\": 5, \"y\": 6}",
+                              "[]", "[1]", "[1, \"s\"]", "[1, 2, 3]", "1", "null"].iter().map(|j| ev(j)).collect();
+    let paths = ["a", "b", "a.b", "o.a", "[0]", "[1]", "[-1]", "[-2]", "[3]", "a[0]", "a[-1]", "x"];
+    let inserted: Vec<(Value, Kind)> = vec![(Value::Integer(9), Kind::integer()), (Value::from("w"), Kind::bytes()), (Value::Null, Kind::null()), (ev("{}"), Kind::object(Collection::empty()))];
+    let mut bad = 0;
+    let mut checked = 0;
+    for (nk, k) in &kinds {
+        for v in values.iter().filter(|v| member(v, k)) {
+            for p in paths {
+                let path = parse_value_path(p).expect("path");
+                // class of the recorded finding: the last segment is a negative index before the start of a non-empty array
+                let neg_before_start = match (p.rfind("[-"), p.ends_with(']')) {
+                    (Some(pos), true) => {
+                        let n: usize = p[pos + 2..p.len() - 1].parse().unwrap_or(0);
+                        let parent = if pos == 0 { Some(v) } else { v.get(&parse_value_path(&p[..pos]).expect("path")) };
+                        matches!(parent, Some(Value::Array(a)) if !a.is_empty() && a.len() < n)
+                    }
+                    _ => false,
+                };
+                if neg_before_start != only_negative_insert_before_start { continue }
+                // get
+                let at = k.at_path(&path);
+                let ok = match v.get(&path) { Some(x) => member(x, &at), None => at.contains_undefined() };
+                checked += 1;
+                if !ok {
+                    bad += 1;
+                    if bad <= 40 { fail(unit, &format!("({nk}).at_path(.{p}) with the value {v}"), "what the value has at the path belongs to the type's view of the path (absence only where it admits undefined)", &format!("at_path = {at}, value has {:?}", v.get(&path).map(ToString::to_string))); }
+                }
+                // insert
+                for (w, x) in &inserted {
+                    let mut v2 = v.clone();
+                    v2.insert(&path, w.clone());
+                    let mut k2 = k.clone();
+                    k2.insert(&path, x.clone());
+                    checked += 1;
+                    if !member(&v2, &k2) {
+                        bad += 1;
+                        if bad <= 40 { fail(unit, &format!("({nk}).insert(.{p}, {x}) with the value {v} and the inserted value {w}"), "the value after insertion belongs to the type after insertion", &format!("type = {k2} {k2:?}, value = {v2}")); }
+                    }
+                }
+                // remove
+                for prune in [false, true] {
+                    let mut v3 = v.clone();
+                    v3.remove(&path, prune);
+                    let mut k3 = k.clone();
+                    k3.remove(&path, prune);
+                    checked += 1;
+                    if !member(&v3, &k3) {
+                        bad += 1;
+                        if bad <= 40 { fail(unit, &format!("({nk}).remove(.{p}, prune: {prune}) with the value {v}"), "the value after removal belongs to the type after removal", &format!("type = {k3} {k3:?}, value = {v3}")); }
+                    }
+                }
+            }
+        }
+    }
+    eprintln!("kind_crud: {checked} cases checked");
+    bad
+}
+
+/// C28: idempotence of one casing function over every string of the 6-letter alphabet up to length 4.
+fn casing_idempotence(f: &str) -> usize {
+    let mut bad = 0;
+    let alphabet = ['a', 'B', ' ', ',', 'é', 'ß', '_', '1'];
+    let mut strings: Vec<String> = vec![String::new()];
+    let mut frontier = vec![String::new()];
+    for _ in 0..4 {
+        let mut next = vec![];
+        for s in &frontier { for c in alphabet { let mut t = s.clone(); t.push(c); next.push(t); } }
+        strings.extend(next.iter().cloned());
+        frontier = next;
+    }
+    let once = Prog::new(&format!("{f}(string!(.s))"));
+    let twice = Prog::new(&format!("{f}({f}(string!(.s)))"));
+    for s in &strings {
+        let (a, b) = (once.run(obj(vec![("s", Value::from(s.as_str()))])), twice.run(obj(vec![("s", Value::from(s.as_str()))])));
+        if a != b {
+            bad += 1;
+            if bad <= 6 { fail(&format!("casing_{f}"), &format!("{f}({f}({s:?}))"), &format!("{a:?} (idempotent)"), &format!("{b:?}")); }
+        }
+    }
+    eprintln!("casing_{f}: {} strings", strings.len());
+    bad
+}
+
+/// C28 bounded stand-in for the string / collection laws whose code is std str / IndexSet / iterator
+/// adapters (outside both verifiers): every string over a 6-letter alphabet up to length 4, through the
+/// real stdlib functions, against the law itself or an independent reference.
+fn string_laws() -> usize {
+    let mut bad = 0;
+    let alphabet = ['a', 'B', ' ', ',', 'é', 'ß'];
+    let mut strings: Vec<String> = vec![String::new()];
+    let mut frontier = vec![String::new()];
+    for _ in 0..4 {
+        let mut next = vec![];
+        for s in &frontier { for c in alphabet { let mut t = s.clone(); t.push(c); next.push(t); } }
+        strings.extend(next.iter().cloned());
+        frontier = next;
+    }
+    let idem = ["upcase", "downcase", "strip_whitespace"];
+    let idem_progs: Vec<(String, Prog, Prog)> = idem.iter().map(|f| (f.to_string(), Prog::new(&format!("{f}(string!(.s))")), Prog::new(&format!("{f}({f}(string!(.s)))")))).collect();
+    let strip = Prog::new("strip_whitespace(string!(.s))");
+    let strlen = Prog::new("strlen(string!(.s))");
+    let roundtrip = Prog::new("join!(split(string!(.s), string!(.d)), string!(.d))");
+    let starts = Prog::new("starts_with(string!(.s), string!(.d))");
+    let ends = Prog::new("ends_with(string!(.s), string!(.d))");
+    let contains = Prog::new("contains(string!(.s), string!(.d))");
+    let truncate = Prog::new("truncate(string!(.s), int!(.n))");
+    let truncate_sfx = Prog::new("truncate(string!(.s), int!(.n), suffix: \"...\")");
+    let seps = [",", "é", "a", ", ", "aB"];
+    let mut checked = 0usize;
+    let mut report = |bad: &mut usize, case: String, want: String, got: String| { *bad += 1; if *bad <= 16 { fail("string_laws", &case, &want, &got); } };
+    for s in &strings {
+        let ev = |extra: Vec<(&str, Value)>| { let mut v = vec![("s", Value::from(s.as_str()))]; v.extend(extra); obj(v) };
+        for (f, once, twice) in &idem_progs {
+            let (a, b) = (once.run(ev(vec![])), twice.run(ev(vec![])));
+            checked += 1;
+            if a != b { report(&mut bad, format!("{f}({f}({s:?}))"), format!("{a:?} (idempotent)"), format!("{b:?}")); }
+        }
+        checked += 2;
+        let got = strip.run(ev(vec![]));
+        if got != Ok(Value::from(s.trim())) { report(&mut bad, format!("strip_whitespace({s:?})"), format!("{:?}", s.trim()), format!("{got:?}")); }
+        let got = strlen.run(ev(vec![]));
+        if got != Ok(Value::Integer(s.chars().count() as i64)) { report(&mut bad, format!("strlen({s:?})"), s.chars().count().to_string(), format!("{got:?}")); }
+        for d in seps {
+            checked += 4;
+            let e = || ev(vec![("d", Value::from(d))]);
+            let got = roundtrip.run(e());
+            if got != Ok(Value::from(s.as_str())) { report(&mut bad, format!("join(split({s:?}, {d:?}), {d:?})"), format!("{s:?}"), format!("{got:?}")); }
+            let got = starts.run(e());
+            if got != Ok(Value::Boolean(s.find(d) == Some(0))) { report(&mut bad, format!("starts_with({s:?}, {d:?})"), format!("{}", s.find(d) == Some(0)), format!("{got:?}")); }
+            let got = ends.run(e());
+            let want = s.rfind(d).is_some_and(|i| i + d.len() == s.len());
+            if got != Ok(Value::Boolean(want)) { report(&mut bad, format!("ends_with({s:?}, {d:?})"), want.to_string(), format!("{got:?}")); }
+            let got = contains.run(e());
+            if got != Ok(Value::Boolean(s.find(d).is_some())) { report(&mut bad, format!("contains({s:?}, {d:?})"), s.find(d).is_some().to_string(), format!("{got:?}")); }
+        }
+        for n in [-1i64, 0, 1, 2, 3, 5] {
+            checked += 2;
+            let lim = n.max(0) as usize;
+            let want: String = s.chars().take(lim).collect();
+            let got = truncate.run(ev(vec![("n", n.into())]));
+            if got != Ok(Value::from(want.as_str())) { report(&mut bad, format!("truncate({s:?}, {n})"), format!("{want:?}"), format!("{got:?}")); }
+            let want_sfx = if s.chars().count() > lim { format!("{want}...") } else { s.clone() };
+            let got = truncate_sfx.run(ev(vec![("n", n.into())]));
+            if got != Ok(Value::from(want_sfx.as_str())) { report(&mut bad, format!("truncate({s:?}, {n}, suffix: \"...\")"), format!("{want_sfx:?}"), format!("{got:?}")); }
+        }
+    }
+    // unique / compact / keys / values on small collections
+    let unique = Prog::new("unique(array!(.a))");
+    let compact = Prog::new("compact(array!(.a))");
+    let keys = Prog::new("keys(object!(.a))");
+    let values = Prog::new("values(object!(.a))");
+    let items: Vec<Value> = vec![Value::Integer(1), Value::from("a"), Value::Null, Value::from(""), Value::Integer(1), obj(vec![]), Value::Array(vec![])];
+    for mask in 0u32..(1 << items.len()) {
+        let a: Vec<Value> = items.iter().enumerate().filter(|(i, _)| mask & (1 << i) != 0).map(|(_, v)| v.clone()).collect();
+        checked += 2;
+        let mut want: Vec<Value> = vec![];
+        for v in &a { if !want.contains(v) { want.push(v.clone()); } }
+        let got = unique.run(obj(vec![("a", Value::Array(a.clone()))]));
+        if got != Ok(Value::Array(want.clone())) { report(&mut bad, format!("unique({})", Value::Array(a.clone())), Value::Array(want).to_string(), format!("{got:?}")); }
+        let empty = |v: &Value| matches!(v, Value::Null) || matches!(v, Value::Bytes(b) if b.is_empty()) || matches!(v, Value::Object(o) if o.is_empty()) || matches!(v, Value::Array(x) if x.is_empty());
+        let want: Vec<Value> = a.iter().filter(|v| !empty(v)).cloned().collect();
+        let got = compact.run(obj(vec![("a", Value::Array(a.clone()))]));
+        if got != Ok(Value::Array(want.clone())) { report(&mut bad, format!("compact({})", Value::Array(a.clone())), Value::Array(want).to_string(), format!("{got:?}")); }
+        let o: BTreeMap<vrl::value::KeyString, Value> = a.iter().enumerate().map(|(i, v)| (format!("k{}", (7 * i) % 5).into(), v.clone())).collect();
+        checked += 2;
+        let got = keys.run(obj(vec![("a", Value::Object(o.clone()))]));
+        let want = Value::Array(o.keys().map(|k| Value::from(k.as_str())).collect());
+        if got != Ok(want.clone()) { report(&mut bad, format!("keys({})", Value::Object(o.clone())), want.to_string(), format!("{got:?}")); }
+        let got = values.run(obj(vec![("a", Value::Object(o.clone()))]));
+        let want = Value::Array(o.values().cloned().collect());
+        if got != Ok(want.clone()) { report(&mut bad, format!("values({})", Value::Object(o.clone())), want.to_string(), format!("{got:?}")); }
+    }
+    eprintln!("string_laws: {checked} law instances checked over {} strings", strings.len());
+    bad
+}
+
 fn main() {
     let unit = std::env::args().nth(1).unwrap_or_default();
     if unit == "format_number_case" {
@@ -1051,10 +1255,14 @@ fn main() {
         "op_typing" => op_typing(),
         "string_arith" => string_arith(),
         "collection_laws" => collection_laws(),
+        "string_laws" => string_laws(),
+        "kind_crud" => kind_crud(false),
+        "kind_crud_neg_insert" => kind_crud(true),
         "kind_union" => kind_union(),
         "stdlib_types" => stdlib_types(),
         "assign_typing" => assign_typing(),
         "format_number" => format_number(),
+        u if u.starts_with("casing_") => casing_idempotence(&u["casing_".len()..]),
         _ => {
             eprintln!("unknown witness unit {unit}");
             std::process::exit(2);
